@@ -1615,6 +1615,14 @@ class ServerClientConnection(ConnectionBase):
         self.version = 1
 
     def _recvClientHello(self, data):
+        if self.session_key_bytes is not None:
+            # a connection answers one client hello. a further hello can only
+            # arrive sealed under the session key, from a peer that has not
+            # necessarily answered the challenge: every extra reply would be
+            # sent to an address that is not yet verified
+            self.log.warning("client hello on a connection that already has a session key: ignored")
+            return
+
         msg = Serializable.loadb(data)
 
         # TODO: API to expose setting protocol version
